@@ -36,12 +36,13 @@ def real_chain(exc, codes=None):
 
 
 class Instance:
-    __slots__ = ("elem", "calls", "ok")
+    __slots__ = ("elem", "calls", "ok", "reads")
 
     def __init__(self, elem):
         self.elem = elem
         self.calls = []      # (callee elem, ok, callee Instance or None for a cache hit)
         self.ok = None
+        self.reads = []      # (kind "rn" | "ra" | "rg", reference id, form) of every reference read that returned
 
 
 class CallRecorder:
@@ -61,6 +62,18 @@ class CallRecorder:
         inst = Instance((cid, tuple(key)))
         self.stack.append(inst)
         self.pending = inst
+
+    def zr(self, kind, rid, form, value):
+        """wraps every reference read of a rendered formula (the read itself is made by the formula: this is called
+        with its result)"""
+        if self.stack:
+            self.stack[-1].reads.append((kind, rid, form))
+        return value
+
+    def own_reads(self, elem):
+        """the reference reads the element's own formula made when it computed the value it holds"""
+        inst = self.last_ok.get(elem)
+        return None if inst is None else list(inst.reads)
 
     def zc(self, caller, cparams, callee, f, args):
         parent = self.stack[-1] if self.stack else None
